@@ -147,7 +147,7 @@ class Worker:
                 return False, time.time() - t0, ("TIMEOUT " if to else "") + out[-600:]
         return True, time.time() - t0, ""
 
-    def check(self, timeout):
+    def check(self, timeout, _retry=False):
         t0 = time.time()
         # VERIF_NO_ESCALATE: without it ./check answers a clean quick pass on a changed anchored file with a thorough-size
         # generation run (4 minutes); the sweep measures the plain quick pass
@@ -177,6 +177,13 @@ class Worker:
             except Exception as e:
                 res.setdefault("replay_errors", []).append(str(e)[:200])
         res["replay_kinds"] = kinds
+        # a mutant that passed `go build ./...` cannot break the harness's use of the exported API: a harness-build "violation"
+        # is then a failure of the environment (seen: the shared Go build cache being cleaned by another job while linking)
+        if kinds and all(k == "harness-build" for k in kinds) and not _retry:
+            return self.check(timeout, _retry=True)
+        if kinds and all(k == "harness-build" for k in kinds):
+            res["check_exit"] = 2; res["error"] = "harness build failed twice on a tree that builds: " + (res.get("replay") or {}).get("impl_output", "")[:300]
+            res["violation"] = ""
         return res
 
 
